@@ -27,6 +27,11 @@ pub struct Scenario {
     /// stream polls that return items.
     #[serde(default)]
     pub tokio: bool,
+    /// tokio mode: budget units spent inside each task poll before the code under test is polled
+    /// (the i-th task poll of the scenario uses `burn[i % len]`), so that the budget runs out at
+    /// chosen points inside fn_graph's own channel / lock operations.
+    #[serde(default, skip_serializing_if = "Vec::is_empty")]
+    pub burn: Vec<u32>,
 }
 
 #[derive(Serialize, Deserialize, Clone, Debug, PartialEq)]
@@ -82,6 +87,16 @@ pub struct RunCfg {
     /// (with `pre_signal`: before the call begins).
     #[serde(default)]
     pub tx_drop: bool,
+    /// Functions whose user future is ready on its FIRST poll (no await point), returning ok.
+    #[serde(default, skip_serializing_if = "Vec::is_empty")]
+    pub sync_ok: Vec<usize>,
+    /// The same, failing (Err / Break).
+    #[serde(default, skip_serializing_if = "Vec::is_empty")]
+    pub sync_fail: Vec<usize>,
+    /// Synchronous functions that send the interrupt signal themselves before they return
+    /// (the run is interrupted inside the very poll in which the function was started).
+    #[serde(default, skip_serializing_if = "Vec::is_empty")]
+    pub sync_sig: Vec<usize>,
 }
 
 fn fwd() -> String {
@@ -95,6 +110,9 @@ fn minus_one() -> i64 {
 }
 fn yes() -> bool {
     true
+}
+fn is_zero(v: &u8) -> bool {
+    *v == 0
 }
 
 impl RunCfg {
@@ -133,8 +151,12 @@ pub enum Step {
         #[serde(default)]
         defer: bool,
     },
-    /// Stream: `poll_next`. Call: a spurious poll.
-    Poll { run: usize },
+    /// Stream: `poll_next`. Call: a spurious poll. `w` = which task (waker) polls a stream.
+    Poll {
+        run: usize,
+        #[serde(default, skip_serializing_if = "is_zero")]
+        w: u8,
+    },
     /// Stream: drop the held FnRef of `f`.
     Drop { run: usize, f: usize },
     /// Stream: drop the stream itself (held FnRefs stay).
